@@ -224,6 +224,9 @@ pub fn generate(rng: &mut Rng, tier: Tier, stats: &mut GenStats) -> Scenario {
     if g.rng.chance(3, 10) {
         return generate_dynamic(&mut g, stats);
     }
+    if g.rng.chance(1, 7) {
+        return crate::props::c20fd::generate(&mut g, stats);
+    }
     let links = if g.rng.chance(1, 2) { LinkMode::All } else { LinkMode::None };
     let mut tree = g.tree(links);
     let model0 = Model::from_tree(&tree).unwrap();
@@ -453,6 +456,7 @@ fn apply_mutation(tree: &[Node], m: &Mutation, serial: usize) -> Vec<Node> {
         exists = true;
     }
     match &m.op {
+        MutOp::FdLimit(_) | MutOp::FdRestore => {},
         MutOp::Remove => drop_below(&mut t, &m.path, false),
         MutOp::Chmod(mode) => {
             if let Some(n) = t.iter_mut().find(|n| n.path == m.path) {
@@ -685,7 +689,7 @@ fn dynamic_check(sc: &Scenario, env: &mut Env) -> Result<Outcome, HarnessError> 
         else {
             "ahead-of-walker"
         };
-        out.probe(format!("mutation:{}:{}", match m.op { MutOp::Remove => "remove", MutOp::Chmod(0) => "chmod-000", MutOp::Chmod(_) => "chmod-r--", MutOp::ToFile => "dir-to-file", MutOp::ToDir(_) => "to-dir", MutOp::Add(_) => "add", MutOp::Retarget(_) => "to-link" }, pos));
+        out.probe(format!("mutation:{}:{}", match m.op { MutOp::Remove => "remove", MutOp::Chmod(0) => "chmod-000", MutOp::Chmod(_) => "chmod-r--", MutOp::ToFile => "dir-to-file", MutOp::ToDir(_) => "to-dir", MutOp::Add(_) => "add", MutOp::Retarget(_) => "to-link", MutOp::FdLimit(_) | MutOp::FdRestore => "descriptor-limit" }, pos));
         let _ = k;
     }
     let visited_taint = view.ys.iter().any(|y| y.wp.as_deref().map_or(false, |p| tainted(p))) || !view.es.is_empty();
@@ -709,6 +713,9 @@ fn dynamic_check(sc: &Scenario, env: &mut Env) -> Result<Outcome, HarnessError> 
 }
 
 pub fn check(sc: &Scenario, env: &mut Env) -> Result<Outcome, HarnessError> {
+    if crate::props::c20fd::is_fd_scenario(sc) {
+        return crate::props::c20fd::check(sc, env);
+    }
     if !sc.mutations.is_empty() {
         return dynamic_check(sc, env);
     }
